@@ -8,7 +8,7 @@ import SparkxVerif.Core.ReaderDamage
   `wf <kind> <filehex>`                              is the file well-formed *as observed* (`OFile.wf` / `JFile.wf` on
         the `analyse`d lines of the real bytes)?  -> `ok wf <events> <particle lines>` | `ok notwf <why>`
   `cuts <kind> <filehex>`                            EVERY byte offset k = 0 … len: the file cut to its first k bytes
-        -> `ok <a_0>;<a_1>;…;<a_len>` with `a_k = <S><H><T>:<constructor outcome>`
+        -> `ok <a_0>;<a_1>;…;<a_len>` with `a_k = <S><H><T>:<constructor outcome>~<outcome with filters={}>`
            S: `Y` if splitting the real prefix at newlines gives exactly "the first j lines + the partial line"
            H: `Y`/`N` the hypotheses `prefixHyp` / `jprefixHyp` of the byte-level theorem hold for the partial line
               (`-` when the cut is at a line boundary and the line-level theorem applies)
@@ -17,7 +17,10 @@ import SparkxVerif.Core.ReaderDamage
   `render <kind> <nl> <tabs> <cols> <events> <impacts|sigma>`   text of the grammar `OSpec.text` / `JSpec.text` used in the
         full byte-level statement (kind = oscar2013|extended|ascii|jetscape|jetscapeP) -> `ok <spec ok Y/N> <texthex>`
   `lines <kind> <filehex>`                           every single deletion and duplication of a particle line, in file
-        order -> `ok <T>:<outcome after deletion>|<T>:<outcome after duplication>;…`  (T: outcome = `err index`)
+        order -> `ok <pos>=<T>:<outcome after deletion>~<with filters={}>|<T>:<after duplication>~<with filters={}>;…`
+        (T: loader outcome = `err index`)
+  `ctorF <kind> <filehex>`                           the constructor with a keep-everything filter (`filters={}` or only
+        `False` switches)
 -/
 namespace SparkxVerif.Drv.C07
 open SparkxVerif.Proto SparkxVerif.Rd SparkxVerif.Rd.Dmg SparkxVerif.Rd.Proto
@@ -30,6 +33,13 @@ def ctorOf (kind : String) (f : FileF) : Option (Except Rd.Err Loaded) :=
   if kind == "oscar" then some (oscarCtor f)
   else if kind == "jetscape" then some (jetscapeCtor f false)
   else if kind == "jetscapeP" then some (jetscapeCtor f true)
+  else none
+
+/-- the same with a keep-everything constructor filter (`filters={}` / only `False` switches) -/
+def ctorFOf (kind : String) (f : FileF) : Option (Except Rd.Err Loaded) :=
+  if kind == "oscar" then some (oscarCtorF f)
+  else if kind == "jetscape" then some (jetscapeCtorF f false)
+  else if kind == "jetscapeP" then some (jetscapeCtorF f true)
   else none
 
 def loaderOf (kind : String) (f : FileF) : Option (Except Rd.Err Loaded) :=
@@ -110,7 +120,8 @@ def cutsOfLine (kind : String) (allLines : List LineF) (linesRaw : List String) 
     let sOk := rawLinesOf pre == linesRaw.take j ++ (if c == 0 then [] else [part])
     let (h, t) := mk c (if c == 0 then none else some (analyse part)) (c == cs.length)
     let out := match ctorOf kind f with | some r => showRes r | none => "bad-kind"
-    s!"{yn sOk}{h}{t}:{out}")
+    let outF := match ctorFOf kind f with | some r => showRes r | none => "bad-kind"
+    s!"{yn sOk}{h}{t}:{out}~{outF}")
 
 def handleCuts (kind : String) (text : String) : String :=
   let full := fileOfText text
@@ -140,7 +151,7 @@ def handleCuts (kind : String) (text : String) : String :=
       -- the complete file (offset = length of the text) when it ends with a newline
       let last := if full.trailingNL then
           let r := readOscar full .all none
-          [s!"Y-{yn (allowedLines F F.lines.length r)}:{match ctorOf kind full with | some r => showRes r | none => "bad-kind"}"]
+          [s!"Y-{yn (allowedLines F F.lines.length r)}:{match ctorOf kind full with | some r => showRes r | none => "bad-kind"}~{match ctorFOf kind full with | some r => showRes r | none => "bad-kind"}"]
         else []
       "ok " ++ ";".intercalate (body ++ last)
   else if kind == "jetscape" || kind == "jetscapeP" then
@@ -162,7 +173,7 @@ def handleCuts (kind : String) (text : String) : String :=
       let body := go 0 raws [] mkFor []
       let last := if full.trailingNL then
           let r := readJetscape full .all pt none
-          [s!"Y-{yn (okAll r)}:{match ctorOf kind full with | some r => showRes r | none => "bad-kind"}"]
+          [s!"Y-{yn (okAll r)}:{match ctorOf kind full with | some r => showRes r | none => "bad-kind"}~{match ctorFOf kind full with | some r => showRes r | none => "bad-kind"}"]
         else []
       "ok " ++ ";".intercalate (body ++ last)
   else "bad-op"
@@ -196,9 +207,9 @@ def handleLines (kind : String) (text : String) : String :=
       let fd : FileF := ⟨deleteLine full.lines i, full.trailingNL⟩
       let fu : FileF := ⟨dupLine full.lines i, full.trailingNL⟩
       let one (f : FileF) : String :=
-        match loaderOf kind f, ctorOf kind f with
-        | some r, some c => s!"{yn (isErrIndex r)}:{showRes c}"
-        | _, _ => "bad-kind"
+        match loaderOf kind f, ctorOf kind f, ctorFOf kind f with
+        | some r, some c, some cf => s!"{yn (isErrIndex r)}:{showRes c}~{showRes cf}"
+        | _, _, _ => "bad-kind"
       s!"{i}={one fd}|{one fu}"))
 
 def handleWf (kind : String) (text : String) : String :=
@@ -244,6 +255,10 @@ def handle : List String → String
   | ["ctor", kind, file] =>
     match unhex? file with
     | some text => (match ctorOf kind (fileOfText text) with | some r => showRes r | none => "bad-op")
+    | none => "bad-op"
+  | ["ctorF", kind, file] =>
+    match unhex? file with
+    | some text => (match ctorFOf kind (fileOfText text) with | some r => showRes r | none => "bad-op")
     | none => "bad-op"
   | ["wf", kind, file] => (match unhex? file with | some text => handleWf kind text | none => "bad-op")
   | ["cuts", kind, file] => (match unhex? file with | some text => handleCuts kind text | none => "bad-op")
